@@ -50,6 +50,9 @@ pub enum Frame {
     Null,
 }
 
+/// The max number of arrays that can be nested within each other.
+const MAX_ARRAY_DEPTH: usize = 32;
+
 impl Frame {
     /// Try to read data of a frame from the given reader.
     ///
@@ -59,6 +62,10 @@ impl Frame {
     ///
     /// [`FrameError::Incomplete`]: crate::resp::frame::Error::Incomplete
     pub fn parse(reader: &mut Cursor<&[u8]>) -> Result<Self, Error> {
+        Self::parse_nested(reader, 0)
+    }
+
+    fn parse_nested(reader: &mut Cursor<&[u8]>, depth: usize) -> Result<Self, Error> {
         match get_byte(reader)? {
             b'+' => {
                 let l = get_line(reader)?;
@@ -100,10 +107,14 @@ impl Frame {
                 // Parse the array length and try convert it to u64
                 let len = get_integer(reader)?;
                 let len = len.try_into().map_err(|_| Error::BadEncoding)?;
-                // Recursively parse each element of the array
+                // Recursively parse each element of the array, the nesting is limited so a
+                // malicious frame can not exhaust the stack
+                if depth >= MAX_ARRAY_DEPTH {
+                    return Err(Error::BadEncoding);
+                }
                 let mut items = Vec::with_capacity(len);
                 for _ in 0..len {
-                    items.push(Frame::parse(reader)?);
+                    items.push(Frame::parse_nested(reader, depth + 1)?);
                 }
                 Ok(Frame::Array(items))
             }
@@ -113,6 +124,10 @@ impl Frame {
 
     /// Checks if a message frame can be parsed from the reader without memory allocations.
     pub fn check(buf: &mut Cursor<&[u8]>) -> Result<(), Error> {
+        Self::check_nested(buf, 0)
+    }
+
+    fn check_nested(buf: &mut Cursor<&[u8]>, depth: usize) -> Result<(), Error> {
         match get_byte(buf)? {
             b'+' => {
                 get_line(buf)?;
@@ -136,8 +151,11 @@ impl Frame {
             }
             b'*' => {
                 let n = get_integer(buf)?;
+                if depth >= MAX_ARRAY_DEPTH {
+                    return Err(Error::BadEncoding);
+                }
                 for _ in 0..n {
-                    Frame::check(buf)?;
+                    Frame::check_nested(buf, depth + 1)?;
                 }
             }
             _ => return Err(Error::BadEncoding),
